@@ -432,19 +432,27 @@ def gen_leaf(rng, lossy_p=0.12):
         kw = {}
         if rng.random() < 0.15:
             kw["postgresql_using"] = "btree"
+        if rng.random() < 0.35:
+            # partial index: the predicate as text() or as a column expression, for SQLite and/or PostgreSQL
+            c0 = cols[0]
+            pred = sa.text('%s > 0' % (c0.name if " " not in c0.name else '"%s"' % c0.name)) if rng.random() < 0.5 else (c0 != None)  # noqa: E711
+            for dk in rng.sample(["sqlite_where", "postgresql_where"], rng.choice([1, 1, 2])):
+                kw[dk] = pred
         ix = sa.Index(rng.choice(["ix_1", "Ix Two"]), *cols, unique=rng.random() < 0.4, **kw)
         if kind == "createIndex":
             if rng.random() < 0.6:
                 op = ops.CreateIndexOp.from_index(ix)
             else:
-                op = ops.CreateIndexOp(ix.name, t.name, [c.name for c in cols], schema=t.schema, unique=ix.unique)
+                op = ops.CreateIndexOp(ix.name, t.name, [c.name for c in cols], schema=t.schema, unique=ix.unique,
+                                       **{k_: v_ for k_, v_ in kw.items() if isinstance(v_, (str, sa.sql.elements.TextClause))})
             if lossy:
                 op.if_not_exists = True
         else:
             if rng.random() < 0.75:
                 op = ops.DropIndexOp.from_index(ix)
             else:
-                op = ops.DropIndexOp(ix.name, t.name, schema=t.schema)
+                op = ops.DropIndexOp(ix.name, t.name, schema=t.schema,
+                                     **{k_: v_ for k_, v_ in kw.items() if isinstance(v_, (str, sa.sql.elements.TextClause))})
             if lossy:
                 op.if_exists = True
         return op
